@@ -259,7 +259,8 @@ def c18d_walk(ctx, tu, fn):
         if fe:
             a = fe[0]["args"]
             ok = len(a) == 3 and a[0][:1] == ["mcall"] and a[0][2].endswith("::begin") and a[0][3][:2] == ["var", v] and \
-                a[1][:1] == ["mcall"] and a[1][2].endswith("::end") and a[1][3][:2] == ["var", v] and a[2][:1] == ["lambda"]
+                a[1][:1] == ["mcall"] and a[1][2].endswith("::end") and a[1][3][:2] == ["var", v] and \
+                lib.strip_elidable(a[2])[:1] == ["lambda"]
             if not ok and walk_why is None:
                 walk_why = "for_each does not traverse [span.begin(), span.end())"
             for _, e in evs:
